@@ -350,24 +350,33 @@ Inductive pyexpr :=
 | EDict (kv : list (pyexpr * pyexpr)).
 
 (* ---------------------------------------------------------------- environment *)
-Definition import_line := (str * str)%type.        (* from <fst> import <snd> *)
+(* (m, Some n) : from m import n        (m, None) : import m   (m without dots) *)
+Definition import_line := (str * option str)%type.
 Definition env := list import_line.                (* in execution order *)
 Definition env_of_imports (l : list import_line) : env := l.
+Definition bound_name (p : import_line) : str := match snd p with Some n => n | None => fst p end.
+Definition is_from (p : import_line) : bool := match snd p with Some _ => true | None => false end.
 
-(* the binding in force after all the import lines ran: the last one wins *)
-Fixpoint env_lookup (E : env) (n : str) : option str :=
+(* the binding in force after all the import lines ran (the last one wins):
+   (m, true) = the attribute of module m with that name, (m, false) = module m itself *)
+Fixpoint env_lookup (E : env) (n : str) : option (str * bool) :=
   match E with
   | [] => None
-  | (m, x) :: r =>
+  | p :: r =>
       match env_lookup r n with
-      | Some m' => Some m'
-      | None => if str_eqb x n then Some m else None
+      | Some b => Some b
+      | None => if str_eqb (bound_name p) n then Some (fst p, is_from p) else None
       end
   end.
 
 Definition resolve (E : env) (p : path) : option cref :=
   match p with
-  | n :: _ => match env_lookup E n with Some m => Some (m, p) | None => None end
+  | n :: rest =>
+      match env_lookup E n with
+      | Some (m, true) => Some (m, p)
+      | Some (m, false) => Some (m, rest)
+      | None => None
+      end
   | [] => None
   end.
 
@@ -381,7 +390,8 @@ Fixpoint unsnoc {A} (l : list A) : option (list A * A) :=
   end.
 
 (* ---------------------------------------------------------------- library classes *)
-Inductive libk := LDecimal | LQName | LDate | LTime | LDateTime | LDuration | LPeriod.
+Inductive libk := LDecimal | LQName | LDate | LTime | LDateTime | LDuration | LPeriod
+                | LSDate | LSTime | LSDateTime.     (* datetime.date / .time / .datetime *)
 
 Definition m_datatype : str := lit "xsdata.models.datatype".
 Definition lib_table : list (cref * libk) :=
@@ -391,7 +401,10 @@ Definition lib_table : list (cref * libk) :=
     ((m_datatype, [lit "XmlTime"]), LTime);
     ((m_datatype, [lit "XmlDateTime"]), LDateTime);
     ((m_datatype, [lit "XmlDuration"]), LDuration);
-    ((m_datatype, [lit "XmlPeriod"]), LPeriod) ].
+    ((m_datatype, [lit "XmlPeriod"]), LPeriod);
+    ((lit "datetime", [lit "date"]), LSDate);
+    ((lit "datetime", [lit "time"]), LSTime);
+    ((lit "datetime", [lit "datetime"]), LSDateTime) ].
 
 Definition lib_kind (c : cref) : option libk :=
   option_map snd (find (fun e => cref_eqb (fst e) c) lib_table).
@@ -425,6 +438,19 @@ Definition lib_call (k : libk) (args : list value) (kws : list (str * value)) : 
                      | Some [y; m; d; h; mi; s; f] => Some (VXml KDateTime [y; m; d; h; mi; s; f] None)
                      | Some [y; m; d; h; mi; s; f; o] => Some (VXml KDateTime [y; m; d; h; mi; s; f] (Some o))
                      | _ => None end
+      | LSDate => match ints_of args with
+                  | Some [y; m; d] => Some (VStd SDate [y; m; d])
+                  | _ => None end
+      | LSTime => match ints_of args with
+                  | Some [h; mi] => Some (VStd STime [h; mi; 0; 0])
+                  | Some [h; mi; s] => Some (VStd STime [h; mi; s; 0])
+                  | Some [h; mi; s; us] => Some (VStd STime [h; mi; s; us])
+                  | _ => None end
+      | LSDateTime => match ints_of args with
+                      | Some [y; m; d; h; mi] => Some (VStd SDateTime [y; m; d; h; mi; 0; 0])
+                      | Some [y; m; d; h; mi; s] => Some (VStd SDateTime [y; m; d; h; mi; s; 0])
+                      | Some [y; m; d; h; mi; s; us] => Some (VStd SDateTime [y; m; d; h; mi; s; us])
+                      | _ => None end
       end
   end.
 
@@ -501,7 +527,8 @@ Definition apply_call (W : world) (E : env) (f : path) (args : list value) (kws 
   | [] => None
   | n :: rest =>
       match env_lookup E n with
-      | Some m => class_call W (m, f) args kws
+      | Some (m, true) => class_call W (m, f) args kws
+      | Some (m, false) => class_call W (m, rest) args kws
       | None => match rest with [] => builtin_call n args kws | _ => None end
       end
   end.
